@@ -30,7 +30,7 @@ func execEvolve(h *caseHdr, ev M, line []byte) any {
 	if err := json.Unmarshal(line, &eh); err != nil {
 		panic(err)
 	}
-	out := M{"kind": "ok", "panic": false, "where": "", "msg": "", "merr": "", "uerr": "", "bytes": []any{}, "back": []any{}, "stage": "", "inputIntact": true}
+	out := M{"kind": "ok", "panic": false, "where": "", "msg": "", "merr": "", "uerr": "", "bytes": []any{}, "back": []any{}, "stage": "", "inputIntact": true, "sane": true}
 	p := instanceFor(h)
 	var in, target reflect.Value
 	panicked, where, msg := guard(func() {
@@ -55,7 +55,9 @@ func execEvolve(h *caseHdr, ev M, line []byte) any {
 		keep := append([]byte{}, data...)
 		uerr := p.Unmarshal(data, target.Interface())
 		out["uerr"] = errStr(uerr)
+		abs.Corrupt = false
 		out["back"] = abs.Project(eh.S2, target.Elem())
+		out["sane"] = !abs.Corrupt
 		out["inputIntact"] = string(keep) == string(data)
 	})
 	if panicked {
